@@ -55,14 +55,19 @@ func parseOp(c px.Context, text string) core.Result {
 	case "value":
 		enc := syn.Enc(o.Val)
 		nt = nt && strings.HasPrefix(enc, "(") && strings.Count(enc, "(") > 1 || strings.HasPrefix(enc, "(t") || strings.HasPrefix(enc, "(c") || strings.HasPrefix(enc, "(n")
-		if _, ok := o.Val.(px.ResolvableType); ok {
-			// second half of the property: resolution returns a type or raises a reported error
+		{
+			// second half of the property: Context.ParseType on the same text returns a type or raises a reported error
+			// (for an expression that is not a type: a reported error)
+			_, isType := o.Val.(px.ResolvableType)
 			r := syn.Safely(func() px.Value { return c.ParseType(text) })
 			tags = append(tags, "resolve:"+r.Kind)
 			switch r.Kind {
 			case "value":
 				if _, ok := r.Val.(px.Type); !ok {
 					return fail(out, "resolve-nil", text, "Context.ParseType returned no type and raised no error", tags)
+				}
+				if !isType {
+					return fail(out, "resolve-nontype", text, "Context.ParseType returned a type for an expression that is not a type", tags)
 				}
 			case "reported", "parse-error":
 				tags = append(tags, "resolve-code:"+r.Code)
